@@ -1,5 +1,5 @@
 From Coq Require Import List NArith ZArith Lia Bool.
-From AnyTLS Require Import Bytes Cmd Generated GeneratedFacts Frame Text Padding BytesFacts FrameProofs.
+From AnyTLS Require Import Bytes Cmd Generated FactsCore FactsPadding Frame Text Padding BytesFacts FrameProofs.
 Import ListNotations.
 Open Scope N_scope.
 Ltac Zify.zify_post_hook ::= Z.to_euclidean_division_equations.
